@@ -128,6 +128,18 @@ func Load(opt LoadOptions) (*Prog, error) {
 				add(an)
 			}
 		}
+		// declared init functions are not package members: reach them through the package initializer
+		if ini := sp.Func("init"); ini != nil {
+			for _, b := range ini.Blocks {
+				for _, in := range b.Instrs {
+					if cl, ok := in.(*ssa.Call); ok {
+						if f := cl.Common().StaticCallee(); f != nil && strings.HasPrefix(f.Name(), "init#") && f.Pkg == sp {
+							add(f)
+						}
+					}
+				}
+			}
+		}
 		for _, m := range sp.Members {
 			switch m := m.(type) {
 			case *ssa.Function:
@@ -204,6 +216,9 @@ func (p *Prog) FuncKey(fn *ssa.Function) string {
 			}
 		}
 		return fmt.Sprintf("%s$%d", p.FuncKey(par), idx)
+	}
+	if strings.HasPrefix(fn.Name(), "init#") && fn.Pkg != nil {
+		return ShortPkg(fn.Pkg.Pkg.Path()) + "." + fn.Name() // a declared init function (the bare name is the package initializer)
 	}
 	if o, ok := fn.Object().(*types.Func); ok && o != nil {
 		return ObjKey(o)
